@@ -182,7 +182,8 @@ PROPS = {
                 "directive of any kind, first/last/anywhere in the main or an included file: parses but must be rejected by the conversion to the model (impossible or non-ASCII-digit date, account without an "
                 "account type or a $macro, non-ASCII-digit amount or price, @accrue ending before its start / with a bad date or account), or a syntax error, an unreadable include, an include cycle; the real "
                 "command against the Lean parser + FromSyntax + pipeline model and against the ledger specification on the parsed text, and, whenever it exits 0, against the ledger of all directives written.",
-        "assumptions": ["unvalued reports only (valued ones: C01/C03)"],
+        "assumptions": ["unvalued reports only (valued ones: C01/C03)",
+                        "translated account mapping and balance query (FactsAgree/TransMapping, TransSwapType, TransBalanceCmd): a compiled regular expression is read as its match predicate (GoSem/RegexpMatch.lean; which predicate a pattern denotes is outside the reading, as in the model); the account registry is not translated: MustGetPath and SwapType/Get are parameters assumed to return THE account of the path / name asked for; of cmd/commands/balance.go execute the journal.Query literal and Multiperiod.Partition are translated, the rest (processor list with its arguments, setup statements, renderer literals, flags) is pinned by source text"],
     },
     "C01": {
         "lean": ["Knut.Properties.C01", "Knut.Properties.C01Table", "Knut.FactsAgree.TransAccount", "Knut.FactsAgree.TransPosting", "Knut.FactsAgree.TransTransaction", "Knut.FactsAgree.TransProcess", "Knut.FactsAgree.TransQuery", "Knut.FactsAgree.TransAmountsSum", "Knut.FactsAgree.TransReport", "Knut.FactsAgree.TransReportTotals", "Knut.FactsAgree.TransReportSort", "Knut.FactsAgree.TransRender", "Knut.FactsAgree.TransRenderVals", "Knut.FactsAgree.TransMapping", "Knut.FactsAgree.TransSwapType", "Knut.FactsAgree.TransBalanceCmd", "Knut.Properties.C01Go"],
